@@ -267,6 +267,10 @@ impl LogInnerManager {
         let mut buffer = vec![0u8; 1024];
         let mut reader = MessageBufReader::new();
         file.seek(SeekFrom::Start(data_cursor)).await?;
+        if count == 0 {
+            //the target is the index entry itself, there is no record to skip
+            return Ok((data_cursor, msg_count));
+        }
         let mut c = 0;
         log::info!(
             "move_to_index_by_count {:?},{},{}",
